@@ -20,7 +20,10 @@ AVG = 32768
 
 
 def cfglines(thorough):
-    out = [("none max=9000", "cfg comp=0 manual=0 max=9000", 1, 9000), ("zstd max=9000", "cfg comp=2 manual=0 max=9000", 1, 9000)]
+    out = [("none max=9000", "cfg comp=0 manual=0 max=9000", 1, 9000), ("zstd max=9000", "cfg comp=2 manual=0 max=9000", 1, 9000),
+           # a dictionary in front of the data and minimum = maximum: every chunk but the last has exactly that size,
+           # whatever was written before the first data chunk
+           ("none+dict min=max=8500", "cfg comp=0 dict=%s manual=0 max=8500 min=8500" % D.hex(), 8500, 8500)]
     if thorough:
         out.append(("zstd+dict max=9000", "cfg comp=2 dict=%s manual=0 max=9000" % D.hex(), 1, 9000))
     return out
